@@ -446,20 +446,30 @@ package tree
 //@ func forwardIterator.Next
 //@   props C02
 //@   noalloc
+//@   ghostinit wn := iter.c.curr
+//@   ghostinit wi := 0
+//@   after call valueUnchecked[0]: ghost wn := iter.c.curr
+//@   after call valueUnchecked[0]: ghost wi := iter.c.i
 //@   requires iter != nil && curOK(&iter.c)
 //@   modifies iter.c.curr, iter.c.i, iter.c.k, iter.c.gen
 //@   ensures curOK(&iter.c)
 //@   ensures old(iter.c.curr) == nil ==> !result1 && iter.c.curr == nil
 //@   ensures !result1 ==> iter.c.curr == nil && result0 == zeroof("KVPair[K, V]")
+//@   ensures result1 ==> iter.c.t.nodes[wn] && 0 <= wi && wi < wn.n && iter.c.t.compare(result0.Key, wn.keys[wi]) == 0 && result0.Value == wn.values[wi]
 
 //@ func backwardIterator.Next
 //@   props C02
 //@   noalloc
+//@   ghostinit wn := iter.c.curr
+//@   ghostinit wi := 0
+//@   after call valueUnchecked[0]: ghost wn := iter.c.curr
+//@   after call valueUnchecked[0]: ghost wi := iter.c.i
 //@   requires iter != nil && curOK(&iter.c)
 //@   modifies iter.c.curr, iter.c.i, iter.c.k, iter.c.gen
 //@   ensures curOK(&iter.c)
 //@   ensures old(iter.c.curr) == nil ==> !result1 && iter.c.curr == nil
 //@   ensures !result1 ==> iter.c.curr == nil && result0 == zeroof("KVPair[K, V]")
+//@   ensures result1 ==> iter.c.t.nodes[wn] && 0 <= wi && wi < wn.n && iter.c.t.compare(result0.Key, wn.keys[wi]) == 0 && result0.Value == wn.values[wi]
 
 //@ func btree.Cursor
 //@   props C02
